@@ -238,3 +238,126 @@ def run_gate_scripts(scripts):
 
     vloop.run(main)
     return out
+
+
+# ---------------------------------------------------------------------------
+# C05 inbound framing
+
+TEXTS = {
+    "ascii": "plain text",
+    "b2": "café ü",
+    "b3": "sep inside x €",
+    "b4": "emoji \U0001F600 \U00010348",
+    "nel": "next\u0085line",
+    "esc": "line1\nline2\r\ttab \\ \"q\"",     # escaped by the JSON encoder
+    "mix": "é \U0001F600\u0085\n",
+}
+
+LINE_KINDS = ["resp", "err", "notif", "req", "junkNotJson", "junkScalar", "junkObject", "junkBoth", "junkArrayScalar", "blank", "junkWrongVersion", "junkNoVersion"]
+WF = {"resp", "err", "notif", "req"}
+
+
+def line_text(kind, n, text):
+    """the text of one line (without terminator) and its abstract description"""
+    t = TEXTS[text]
+    if kind == "resp":
+        o = {"jsonrpc": "2.0", "id": "r%d" % n, "result": {"marker": n, "t": t}}
+    elif kind == "err":
+        o = {"jsonrpc": "2.0", "id": n, "error": {"code": -32000, "message": t, "data": {"marker": n}}}
+    elif kind == "notif":
+        o = {"jsonrpc": "2.0", "method": "notifications/message", "params": {"marker": n, "level": "info", "data": t}}
+    elif kind == "req":
+        o = {"jsonrpc": "2.0", "id": "q%d" % n, "method": "roots/list", "params": {"marker": n, "t": t}}
+    elif kind == "junkNotJson":
+        return "this is not json {" + t.replace("\n", " ").replace("\r", " ")
+    elif kind == "junkScalar":
+        o = 42
+    elif kind == "junkObject":
+        o = {"bad": n, "t": t}
+    elif kind == "junkBoth":
+        o = {"jsonrpc": "2.0", "id": n, "result": {"marker": n}, "error": {"code": 1, "message": t}}
+    elif kind == "junkArrayScalar":
+        o = [1, 2]
+    elif kind == "blank":
+        return "  "
+    elif kind == "junkWrongVersion":
+        o = {"jsonrpc": "1.0", "id": n, "result": {"marker": n, "t": t}}
+    elif kind == "junkNoVersion":
+        o = {"id": n, "result": {"marker": n, "t": t}}
+    else:
+        raise ValueError(kind)
+    return json.dumps(o, ensure_ascii=False, separators=(",", ":"))
+
+
+def build_stream(lines, tail=None):
+    """lines: list of (kind, text, term).  Returns (bytes, description for the specification)."""
+    data = bytearray()
+    ends, wf, notif, kinds = [], [], [], []
+    for i, (kind, text, term) in enumerate(lines, 1):
+        data += line_text(kind, i, text).encode("utf-8")
+        data += b"\r\n" if term == "CRLF" else b"\n"
+        ends.append(len(data))
+        wf.append(kind in WF)
+        notif.append(kind == "notif")
+        kinds.append(kind)
+    if tail:
+        data += line_text(tail[0], len(lines) + 1, tail[1]).encode("utf-8")     # unterminated: not a line
+    mid = [p for p in range(1, len(data)) if (data[p] & 0xC0) == 0x80]
+    return bytes(data), {"len": len(data), "ends": ends, "wf": wf, "notif": notif, "mid": mid, "kinds": kinds}
+
+
+async def _settle(client, got, gotn):
+    """drain until nothing new arrives (the reader blocks on a full read stream)"""
+    quiet = 0
+    while quiet < 2:
+        await idle(2)
+        a = drain(client._incoming_recv)
+        b = drain(client.notifications)
+        got.extend(a)
+        gotn.extend(b)
+        quiet = quiet + 1 if not a and not b else 0
+
+
+def run_framing(cases):
+    """cases: list of (lines, tail, chunk sizes).  Returns trace records for StdioFramingTrace."""
+    from chuk_mcp.transports.stdio.stdio_client import StdioClient
+
+    out = []
+
+    async def one(lines, tail, sizes):
+        data, desc = build_stream(lines, tail)
+        evs = []
+        with seam() as procs:
+            client = StdioClient(params())
+            async with client:
+                proc = procs[0]
+                p = 0
+                for n in sizes:
+                    chunk = data[p:p + n]
+                    p += n
+                    proc.stdout.feed(chunk)
+                    got, gotn = [], []
+                    await _settle(client, got, gotn)
+                    evs.append({"e": "Chunk", "n": n, "delivered": [msg_tag(m)[1] for m in got], "notified": [msg_tag(m)[1] for m in gotn],
+                                "kinds": [msg_tag(m)[0] for m in got]})
+                proc.stdout.eof()
+                got, gotn = [], []
+                await _settle(client, got, gotn)
+                evs.append({"e": "Eof", "n": 0, "delivered": [msg_tag(m)[1] for m in got], "notified": [msg_tag(m)[1] for m in gotn]})
+        rec = dict(desc)
+        rec["ev"] = evs
+        # only the mid positions that are cut positions matter to the specification
+        cutpos = set()
+        q = 0
+        for n in sizes:
+            q += n
+            cutpos.add(q)
+        rec["mid"] = [m for m in desc["mid"] if m in cutpos]
+        return rec
+
+    async def main():
+        for lines, tail, sizes in cases:
+            out.append(await one(lines, tail, sizes))
+
+    vloop.run(main)
+    return out
